@@ -492,6 +492,25 @@ def family_runs(spec, tier, seed):
 
 
 def main(argv):
+    # A run against a scratch copy of the repository regenerates Gen/Consts.lean and may rebuild
+    # wpmodel from it; it must not overlap with any other run that shares this lean/ directory.
+    # Runs against /repo may overlap with each other (shared lock), a scratch run excludes everything.
+    os.makedirs(WORK, exist_ok=True)
+    with open(os.path.join(WORK, ".repo-lock"), "w") as lf:
+        fcntl.flock(lf, fcntl.LOCK_SH if REPO == "/repo" else fcntl.LOCK_EX)
+        try:
+            return _main(argv)
+        finally:
+            if REPO != "/repo":
+                # leave the generated constants of /repo behind, not those of the scratch copy
+                e = dict(os.environ)
+                e["WOODPILE_REPO"] = "/repo"
+                subprocess.run([sys.executable, os.path.join(ROOT, "tools", "extract_consts.py")], cwd=ROOT, env=e,
+                               stdout=subprocess.DEVNULL, stderr=subprocess.DEVNULL)
+            fcntl.flock(lf, fcntl.LOCK_UN)
+
+
+def _main(argv):
     ap = argparse.ArgumentParser()
     ap.add_argument("pid")
     ap.add_argument("--tier", default=os.environ.get("VERIF_TIER", "quick"), choices=["quick", "thorough"])
